@@ -8,6 +8,8 @@ package c05
 // reaches the target iff the model admits the pair.
 
 import (
+	"crypto/tls"
+	"github.com/gorilla/websocket"
 	"fmt"
 	"net"
 	"strings"
@@ -188,4 +190,110 @@ func executeRealUpstream(c Case) (kind, detail string) {
 		return "inconclusive", fmt.Sprintf("upstream %s: Connect succeeded but the target has %q after 10 s", url, got)
 	}
 	return "", ""
+}
+
+
+// executeRealForced: the forced-certificate peer (see forcedcert_test.go) against REAL server
+// objects started through their own Startup on loopback (the TLS listeners of HttpServer and
+// SocketServer are set up there).
+func executeRealForced(c ForcedCase) (kind, detail string) {
+	bubble.SetupLogging()
+	defer func() {
+		if p := recover(); p != nil {
+			kind, detail = "panic", fmt.Sprint(p)
+		}
+	}()
+	p := pki.Real()
+	var scfg cert.ServerConfig
+	scfg.Certificate, scfg.PrivateKey, scfg.CaCertificate = p.Server.CertPEM, p.Server.KeyPEM, p.CA
+	scfg.RequireClientCert = c.Require
+	fake := &world.FakeChannel{ChName: "x", Keep: true, BufLimit: 1 << 16}
+	port := freeTCPPort()
+	var srv server.Server
+	if c.Endpoint == "real-tcp+tls" {
+		s := server.NewSocketServer()
+		s.Address = addr.MustParseAddress(fmt.Sprintf("tcp+tls://127.0.0.1:%d", port))
+		s.ServerConfig = scfg
+		srv = s
+	} else {
+		s := server.NewHttpServer()
+		s.Address = addr.MustParseAddress(fmt.Sprintf("https://127.0.0.1:%d", port))
+		s.ServerConfig = scfg
+		s.Endpoints = []server.HttpEndpoint{{Endpoint: "/ws"}}
+		srv = s
+	}
+	started := make(chan error, 1)
+	go func() { started <- srv.Startup(server.Channels{fake}) }()
+	select {
+	case err := <-started:
+		if err != nil {
+			return "inconclusive", "server startup: " + err.Error()
+		}
+	case <-time.After(300 * time.Millisecond):
+	}
+	defer srv.Shutdown()
+	for i := 0; i < 100; i++ {
+		if cc, err := net.Dial("tcp", fmt.Sprintf("127.0.0.1:%d", port)); err == nil {
+			cc.Close()
+			break
+		}
+		time.Sleep(20 * time.Millisecond)
+	}
+	cfg := forcedTLS(p, c.Cert)
+	announce := "X-SOCKETACE / HTTP/1.1\r\nAccepts-Protocol-Version: v2.0.0\r\n\r\n"
+	served, why := false, ""
+	if c.Endpoint == "real-tcp+tls" {
+		raw, err := net.DialTimeout("tcp", fmt.Sprintf("127.0.0.1:%d", port), 5*time.Second)
+		if err != nil {
+			return "inconclusive", err.Error()
+		}
+		defer raw.Close()
+		tc := tls.Client(raw, cfg)
+		raw.SetDeadline(time.Now().Add(10 * time.Second))
+		if err := tc.Handshake(); err != nil {
+			why = "TLS handshake: " + err.Error()
+		} else {
+			tc.Write([]byte(announce))
+			b := make([]byte, 4096)
+			n, rerr := tc.Read(b)
+			served = strings.Contains(string(b[:n]), "HTTP/1.1 200")
+			why = fmt.Sprintf("answer %q err %v", b[:n], rerr)
+		}
+	} else {
+		d := &websocket.Dialer{TLSClientConfig: cfg, HandshakeTimeout: 10 * time.Second}
+		cc, _, err := d.Dial(fmt.Sprintf("wss://127.0.0.1:%d/ws", port), nil)
+		if err != nil {
+			why = "websocket dial: " + err.Error()
+		} else {
+			defer cc.Close()
+			cc.SetReadDeadline(time.Now().Add(10 * time.Second))
+			cc.WriteMessage(websocket.BinaryMessage, []byte(announce))
+			_, m, rerr := cc.ReadMessage()
+			served = strings.Contains(string(m), "HTTP/1.1 200")
+			why = fmt.Sprintf("answer %q err %v", m, rerr)
+		}
+	}
+	want := !c.Require || c.Cert == "good"
+	switch {
+	case served && !want:
+		return "admits-unauthenticated-peer|forced-client-cert|" + c.Endpoint + "|" + c.Cert, fmt.Sprintf("the endpoint requires client certificates of its CA; a peer presenting %q was served (%s)", c.Cert, why)
+	case !served && want && (c.Cert == "good" || c.Cert == "none"):
+		if strings.Contains(why, "timeout") {
+			return "inconclusive", why
+		}
+		return "rejects-legitimate-peer|forced-client-cert|" + c.Endpoint + "|" + c.Cert, "the peer must be served but was not: " + why
+	}
+	return "", ""
+}
+
+func realForcedCases() []ForcedCase {
+	var out []ForcedCase
+	for _, ep := range []string{"real-tcp+tls", "real-https"} {
+		for _, crt := range []string{"none", "good", "foreign", "server-own"} {
+			for _, req := range []bool{true, false} {
+				out = append(out, ForcedCase{"forced-client-cert", ep, crt, req})
+			}
+		}
+	}
+	return out
 }
